@@ -98,6 +98,13 @@ template <class A> static Verdict check_type(const std::string &bt, const std::s
   // invariants of normalisation on R alone
   if ((before.scheme.has_value()) != (after.scheme.has_value())) return fail("normalisation added or removed a scheme");
   if (before.hasAuth() != after.hasAuth()) return fail("normalisation added or removed an authority");
+  {
+    // the same two clauses on what the normalised reference says when it is written out and read again
+    if (!uriref_matcher().matches(nrt)) return fail("normalised R '" + esc(nrt) + "' is not a valid reference");
+    MUri back = m_split(nrt);
+    if (back.hasScheme != before.scheme.has_value()) return fail("normalised R '" + esc(nrt) + "' reads back " + (back.hasScheme ? "with" : "without") + " a scheme");
+    if (back.hasAuth != before.hasAuth()) return fail("normalised R '" + esc(nrt) + "' reads back " + (back.hasAuth ? "with" : "without") + " an authority");
+  }
   if (!before.scheme && !before.hasAuth()) {
     // judged on the recomposed text of the normalised reference
     std::string pb = before.pathText();
